@@ -393,8 +393,8 @@ def check(run: common.Run):
     files += f; shards += s
 
     # ---- (c) the rules on the library with the preserve set a client induces (refinement)
-    rcases = []
-    for form, subset, c in pairs[:: (3 if quick else 1)]:
+    rcases, rule_errors = [], []   # the model's rules are total: a raise / unparsable output on this
+    for form, subset, c in pairs[:: (3 if quick else 1)]:     # seed-independent domain is a disagreement
         (tree / "client.py").write_text(c)
         P = sorted(mods["main"]._used_names_in_file(tree / "client.py"))
         for rule in k10.RULES:
@@ -403,6 +403,7 @@ def check(run: common.Run):
                 ast.parse(out)
             except Exception as e:  # noqa
                 hist[f"{rule}:raised:{type(e).__name__}"] += 1
+                rule_errors.append(("rule-raised", rule, P, LIB, f"{type(e).__name__}: {e}"[:200]))
                 continue
             hist[f"{rule}:{'changed' if out != LIB else 'same'}"] += 1
             if out != LIB:
@@ -415,6 +416,8 @@ def check(run: common.Run):
                     out = k10.run_rule(mods, rule, src, P)
                     ast.parse(out)
                 except Exception as e:  # noqa
+                    hist[f"{rule}:raised:{type(e).__name__}"] += 1
+                    rule_errors.append(("rule-raised", rule, sorted(P), src, f"{type(e).__name__}: {e}"[:200]))
                     continue
                 hist[f"{rule}:{'changed' if out != src else 'same'}"] += 1
                 rcases.append((k10.rule_case(rule, P, src, out, False), ("rule", rule, sorted(P), src, out, False)))
@@ -428,6 +431,7 @@ def check(run: common.Run):
                         ast.parse(out)
                     except Exception as e:  # noqa
                         hist[f"{rule}:raised:{type(e).__name__}"] += 1
+                        rule_errors.append(("rule-raised", rule, sorted(P), src, f"{type(e).__name__}: {e}"[:200]))
                         continue
                     hist[f"{rule}:dup:{'changed' if out != src else 'same'}"] += 1
                     if out != src:
@@ -438,7 +442,7 @@ def check(run: common.Run):
     files += f; shards += s
 
     results = common.run_case_files(files)
-    disagreements = []
+    disagreements = list(rule_errors[:3])
     for p, shard in zip(files, shards):
         rc, out = results[p]
         idx = common.parse_nat_list(out) if rc == 0 else None
